@@ -621,7 +621,7 @@ pub fn run(ctx: &Ctx, replay: Option<&serde_json::Value>) {
         return;
     }
     ctx.set_rule("a generated ground item (fact, rule, check, policy; grammar-normal, every term type, strings from the full character set incl. Datalog syntax) is turned into a template by replacing up to 6 ground sub-terms (top-level, nested in arrays / maps, map keys, set elements, expression operands, inside closures) and key scopes by {name} parameters; the removed values are bound back through set / set_lenient / set_scope (constructor API or parsed text) or code_with_params, a generated subset first left unbound; oracle: the bound item equals the original item (through Display -> parse and through token -> print_block_source -> parse), partial items are refused with exactly the unbound names, unknown names are reported by strict setters only, nothing panics; non-trivial = a parameter in a nested / map / expression / closure / scope / set position or a value with quote, backslash, braces or semicolon; distinct = hash(case)");
-    let cases = ctx.tier.pick(40_000, 8_000_000);
+    let cases = ctx.tier.pick(600_000, 8_000_000);
     let cfg = GenCfg {
         typed: false,
         grammar_normal: true,
